@@ -180,8 +180,16 @@ func c01Pets(name string, n int) []*petData {
 
 // C01_abstract: heterogeneous interface-typed lists with covariant fields;
 // the parsed executable is resolved a second time over other data.
-func C01_abstract() {
-	sh, petSels := c01AbsShape(sym.Choice("shape", 4))
+func C01_abstract() { c01AbsRun([]int{0, 1, 2, 3}, 2) }
+
+// C08_covariant: the same graph seen from C08 - every element of a mixed
+// interface list, and every friend reached through a covariant field, is
+// resolved as ITS concrete type (type conditions, __typename, fields of the
+// narrower type), whichever type came first in the list.
+func C08_covariant() { c01AbsRun([]int{0, 3}, 1) }
+
+func c01AbsRun(shapes []int, rounds int) {
+	sh, petSels := c01AbsShape(shapes[sym.Choice("shape", len(shapes))])
 	maxN := 2
 	if sym.Thorough() {
 		maxN = 3
@@ -199,7 +207,7 @@ func C01_abstract() {
 	exe, err := root.ParseExecutableString(doc)
 	sym.Assert(err == nil, "document accepted")
 	sym.Budget(12_000_000)
-	for round := 0; round < 2; round++ {
+	for round := 0; round < rounds; round++ {
 		q.pets = c01Pets("r"+string(rune('0'+round))+"p", 1+sym.Choice("pets", maxN))
 		res, rerr := root.ResolveExecutable(exe, "", nil)
 		sym.Observe("res", res)
